@@ -26,47 +26,64 @@ THEOREMS = [
     "PorepyVerif.C45.key_eq_iff",
     "PorepyVerif.C45.key_not_proper_prefix",
     "PorepyVerif.C45.leafKey_injective",
+    "PorepyVerif.C45.lex_render",
+    "PorepyVerif.C45.render_injective",
+    "PorepyVerif.C45.key_wellformed",
+    "PorepyVerif.C45.keyString_injective",
+    "PorepyVerif.C45.keyString_eq_iff",
+    "PorepyVerif.C45.hash_congr",
+    "PorepyVerif.C45.key_ne_of_hash_ne",
+    "PorepyVerif.C45.hash_eq_iff",
     "PorepyVerif.C45.domain_size_collides",
     "PorepyVerif.C45.abbreviated_indices_collide",
     "PorepyVerif.C45.evaluate_function_collides",
+    "PorepyVerif.C45.surrogate_name_collides",
     "PorepyVerif.C45.evaluate_arity_collides",
     "PorepyVerif.C45.time_index_collides",
     "PorepyVerif.C45.projection_list_collides",
     "PorepyVerif.C45.domain_type_collides",
+    "PorepyVerif.C45.merged_domain_type_collides",
     "PorepyVerif.C45.dense_shape_collides",
     "PorepyVerif.C45.original_not_injective",
+    "PorepyVerif.C45.delimiter_in_value_collides",
 ]
 LEAN_MODULES = ["PorepyVerif.C45.Props"]
 AUDIT = "PorepyVerif/C45/Audit.lean"
 DRIVER = "PorepyVerif/C45/Driver.lean"
 N = {"quick": 400, "thorough": 25000}
 RULE = ("a case = 4 expressions: a random operator tree E0 (depth <= 4 quick / 6 thorough; leaves: Variable, MixedDimensionalVariable, "
-        "TimeDependentDenseArray on subdomains/interfaces/boundary grids whose ids coincide across grid classes, Scalar, DenseArray (1-d, 2-d), "
+        "TimeDependentDenseArray on subdomains/interfaces/boundary grids whose ids coincide across grid classes, Scalar (any float), DenseArray (1-d, 2-d), MergedOperator, "
         "SparseArray (csr/csc/coo/dia, matrix/array), Projection (also >1000 indices, transposed slicer), ProjectionList (0-3 members), Divergence; "
         "nodes: add sub mul div pow matmul (also with a raw float / ndarray / spmatrix operand on either side, i.e. the reverse overloads), "
-        "pp.ad.Function / AbstractFunction calls with 1-3 arguments, previous_timestep / previous_iteration of leaves and of whole trees, keys "
-        "computed before a shift); E1 = E0 built again in a different way (same normal form); E2 = E0 with one leaf datum or one "
+        "pp.ad.Function / AbstractFunction calls with 1-3 arguments, SurrogateOperator nodes, previous_timestep / previous_iteration of leaves and "
+        "of whole trees, keys computed before a shift, and 'hash x, then build x.previous_timestep() twice' histories); E1 = E0 built again in a different way (same normal form); E2 = E0 with one leaf datum or one "
         "structural element changed (name, domain, domain class, time/iterate index, value, array entry/shape, matrix entry/format/shape, "
         "index entry, domain/range size, transposed, function, function name, argument grouping, operation, operand order); "
         "E3 = a second mutant or an unrelated tree. non-trivial = at least one equal and one different pair; distinct = distinct case JSON")
 TRUSTED = [
-    "modelled, not verified: the rendering of the token list as a string (Model.render) and its unique decodability, which needs names "
-    "without the characters '(', ')', ',', '=', ' ' (generator names have none) - checked by exact string comparison with the real _key() on every case",
+    "proved, no longer trusted: the key string determines the token list (lex_render / keyString_injective) for names and digests without the "
+    "characters ',' ')' ' ' ']' (sparse format names also without '('); the driver re-checks wfTree/wfList and lex(render(key)) = key on every case",
     "sha256 digests (dense/sparse data, projection index arrays) are treated as injective identifiers and are computed by the harness, "
-    "independently of porepy's code; numpy's str() of an index array (unrepaired projection key) likewise",
+    "independently of porepy's code; a scalar is identified by python's repr of its float value (repr round-trips floats)",
     "the harness' normalisation of an expression to the tree porepy should have built (reverse overloads, add with a raw left operand puts the "
     "operator first, shifts are pushed to the time-dependent leaves) - a disagreement there shows up as a key-string mismatch",
-    "function identity = id() of the wrapped callable (pp.ad.Function) or of the AbstractFunction instance, as in fixes/C45-4-evaluate-function-identity.diff",
-    "not covered: MergedOperator / SurrogateOperator keys, Projection objects mutated in place by sum_projection_list, operator names (not part of the key by design)",
+    "function identity = id() of the wrapped callable (pp.ad.Function) or of the AbstractFunction instance, as in fixes/C45-4-evaluate-function-identity.diff; "
+    "a SurrogateOperator is identified by its name and its dependencies (its domains are those of the dependencies by contract)",
+    "python's str hash: hash(op) == hash(op._key()) is checked; equal hashes of different keys would be a 64-bit collision of the string hash (counted, never observed)",
+    "not covered: Projection objects mutated in place by sum_projection_list, operator names (not part of the key by design), the legacy key formats "
+    "before fixes C45-1/2/3 (model keeps them only for the collision theorems)",
 ]
-EXPLANATION = ("FULL at token level: the model key is the lexed key string; key_injective/key_prefix_code prove that the repaired key is a prefix code, hence "
-               "identifies the tree, for all trees; one *_collides theorem per repair shows that the pinned code's key is not injective. The correspondence "
-               "compares rendered model keys with the real _key() strings exactly, in the configuration (repair by repair) detected on the checked tree.")
-ASSUMPTIONS = ["scalar values are dyadic rationals with |v| < 1e6 and denominator <= 1024 so that python's float repr is their exact decimal expansion",
-               "names contain no delimiter characters"]
+EXPLANATION = ("FULL: the model key is the lexed key string; key_injective/key_prefix_code prove that the repaired key is a prefix code at token level, "
+               "lex_render/render_injective/keyString_injective lift this to the actual strings (decoder lex with lex(render ts) = ts), hash_eq_iff states the "
+               "hash consequence; one *_collides theorem per repair shows that the key without it is not injective. The correspondence compares rendered model "
+               "keys with the real _key() strings exactly, in the configuration (repair by repair) detected on the checked tree.")
+ASSUMPTIONS = ["names and digests contain none of the characters ',' ')' ' ' ']' (checked by the driver on every case)"]
 
 NSD, NINTF, NBG = 4, 3, 3
-NAMES = ["p", "q", "lam", "T_1", "flux-x", "u.v"]
+NAMES = ["p", "q", "lam", "T_1", "flux-x", "u.v", "a=b", "f(x"]
+MKEYS = ["flux", "bound_flux", "stress"]
+PKEYS = ["flow", "mechanics"]
+MCLS = ["DiscrA", "DiscrB"]
 FN_NAMES = ["f", "g", "density_exponential"]
 OPS = {"add": _op.add, "sub": _op.sub, "mul": _op.mul, "div": _op.truediv, "pow": _op.pow, "matmul": _op.matmul}
 FMTS = ["csr_matrix", "csc_matrix", "coo_matrix", "dia_matrix", "csr_array", "csc_array", "coo_array"]
@@ -107,7 +124,13 @@ def funcs():
             def get_values(self, *args):
                 return args[0]
 
-        _FUNCS = {"fn": {"exp": pp.ad.functions.exp, "log": pp.ad.functions.log, "sin": pp.ad.functions.sin,
+        class DiscrA:
+            pass
+
+        class DiscrB:
+            pass
+
+        _FUNCS = {"discr": {"DiscrA": DiscrA(), "DiscrB": DiscrB()}, "fn": {"exp": pp.ad.functions.exp, "log": pp.ad.functions.log, "sin": pp.ad.functions.sin,
                          "sum": (lambda *a: sum(a)), "first": (lambda *a: a[0])},
                   "inst": {"dj1": _DJ(1.0, "dj"), "dj2": _DJ(2.0, "dj")}}
     return _FUNCS
@@ -129,7 +152,8 @@ def detect_cfg():
         e = pp.ad.Function(funcs()["fn"]["exp"], "e")(v)
         _CFG = {"domSize": "domain_size=5" in k, "idxHash": "range_indices=[" not in k, "plistKeys": "Projection operator" not in pl,
                 "timeIdx": "time_step_index" in v._key(), "domType": "domain_type" in v._key(), "evalFn": "(function" in e._key(),
-                "denseShape": "shape=" in pp.ad.DenseArray(np.zeros(2))._key()}
+                "denseShape": "shape=" in pp.ad.DenseArray(np.zeros(2))._key(),
+                "mergedDomType": "domain_type" in pp.ad.MergedOperator(funcs()["discr"]["DiscrA"], "flux", "flow", None, [pool()["sd"][0]])._key()}
     return _CFG
 
 
@@ -172,6 +196,8 @@ def _final_indices(steps):
     """(ts, it) private indices after a list of steps; None if porepy must raise (time shift of a previous iterate or vice versa)"""
     ts, it = -1, -1
     for s in steps:
+        if s[0] == "fork":
+            s = s[1:]
         if s[0] == "ts":
             if it >= 0:
                 return None
@@ -194,6 +220,14 @@ def _apply_steps(op, steps):
             op = op.previous_iteration(steps=s[1])
         elif s[0] == "set":
             op.set_value(_fl(s[1]))
+        elif s[0] == "fork":
+            # hash x, build the shifted operator twice from the same x (keys of the first copy computed in between)
+            hash(op)
+            mk = (lambda o: o.previous_timestep(steps=s[2])) if s[1] == "ts" else (lambda o: o.previous_iteration(steps=s[2]))
+            first = mk(op)
+            hash(first)
+            second = mk(op)
+            op = first if s[3] == 0 else second
     return op
 
 
@@ -252,6 +286,12 @@ def build(E):
         return ProjectionList([_build_proj(p) for p in E["ps"]])
     if k == "div":
         return pp.ad.Divergence([pool()["sd"][i] for i in E["sds"]], dim=E["dim"])
+    if k == "merged":
+        return pp.ad.MergedOperator(funcs()["discr"][E["cls"]], E["mk"], E["pk"], E.get("inner"), [_dom(d) for d in E["doms"]])
+    if k == "surr":
+        from porepy.numerics.ad.surrogate_operator import SurrogateOperator
+        ch = [build(a) for a in E["args"]]
+        return SurrogateOperator(E["name"], list(ch[0].domains), ch)
     if k == "bin":
         a = _raw(E["a"]) if E["a"].get("raw") else build(E["a"])
         b = _raw(E["b"]) if E["b"].get("raw") else build(E["b"])
@@ -321,17 +361,25 @@ def norm(E):
         for s in E.get("steps", []):
             if s[0] == "set":
                 v = s[1]
-        return {"k": "scalar", "v": frac(Fraction(v))}
+        return {"k": "scalar", "v": frac(Fraction(_fl(v)))}  # the exact value of the float
     if k == "dense":
-        return {"k": "dense", "shape": list(E["shape"]), "vals": [frac(Fraction(v)) for v in E["vals"]]}
+        return {"k": "dense", "shape": list(E["shape"]), "vals": [frac(Fraction(_fl(v))) for v in E["vals"]]}
     if k == "sparse":
-        return {"k": "sparse", "fmt": E["fmt"], "shape": list(E["shape"]), "ent": [[e[0], e[1], frac(Fraction(e[2]))] for e in E["ent"]]}
+        return {"k": "sparse", "fmt": E["fmt"], "shape": list(E["shape"]), "ent": [[e[0], e[1], frac(Fraction(_fl(e[2])))] for e in E["ent"]]}
     if k == "proj":
         return {"k": "proj", "rng": _idx(E["rng"]), "dom": _idx(E["dom"]), "dsize": E["dsize"], "rsize": E["rsize"], "tr": bool(E.get("tr"))}
     if k == "plist":
         return {"k": "plist", "ps": [norm(p) for p in E["ps"]]}
     if k == "div":
         return {"k": "div", "dim": E["dim"], "sds": list(E["sds"])}
+    if k == "merged":
+        if len({d[0] for d in E["doms"]}) > 1:
+            raise Invalid()
+        return {"k": "merged", "name": E["cls"], "dt": _dt_of(E["doms"]), "doms": [d[1] for d in E["doms"]], "mk": E["mk"], "pk": E["pk"], "inner": E.get("inner")}
+    if k == "surr":
+        if not E["args"] or any(a["k"] not in ("var", "mdvar") for a in E["args"]):
+            raise Invalid()
+        return {"k": "eval", "fn": "surr:", "fname": E["name"], "args": [norm(a) for a in E["args"]]}
     if k == "bin":
         ra, rb = bool(E["a"].get("raw")), bool(E["b"].get("raw"))
         if ra and rb:
@@ -380,7 +428,7 @@ def sparse_digest(n):
         parts = [m.data, m.offsets]
     else:
         parts = [m.data, m.indices, m.indptr]
-    return f"{f}_{tuple(int(x) for x in m.shape)}_" + "".join(_sha(p) for p in parts)
+    return f, tuple(int(x) for x in m.shape), "".join(_sha(p) for p in parts)
 
 
 def idx_digest(l, cfg):
@@ -397,14 +445,16 @@ def wire(n, cfg):
     if k in ("mdvar", "tdda"):
         return dict(n, doms=[P[key[n["dt"]]][i].id for i in n["doms"]])
     if k == "scalar":
-        return n
+        return {"k": "scalar", "repr": repr(_fl(n["v"]))}
+    if k == "merged":
+        return dict(n, doms=[P[key[n["dt"]]][i].id for i in n["doms"]])
     if k == "dense":
         return {"k": "dense", "shape": n["shape"], "hash": dense_digest(n)}
     if k == "sparse":
-        return {"k": "sparse", "hash": sparse_digest(n)}
+        fmt, shape, hexd = sparse_digest(n)
+        return {"k": "sparse", "fmt": fmt, "rows": shape[0], "cols": shape[1], "hex": hexd}
     if k == "proj":
-        return {"k": "proj", "rng": idx_digest(n["rng"], cfg), "rngLen": len(n["rng"]), "dom": idx_digest(n["dom"], cfg), "domLen": len(n["dom"]),
-                "dsize": n["dsize"], "rsize": n["rsize"], "tr": n["tr"]}
+        return {"k": "proj", "rng": idx_digest(n["rng"], cfg), "dom": idx_digest(n["dom"], cfg), "dsize": n["dsize"], "rsize": n["rsize"], "tr": n["tr"]}
     if k == "plist":
         return {"k": "plist", "ps": [wire(p, cfg) for p in n["ps"]]}
     if k == "div":
@@ -413,12 +463,15 @@ def wire(n, cfg):
         return dict(n, a=wire(n["a"], cfg), b=wire(n["b"], cfg))
     if k == "eval":
         kind, tok = n["fn"].split(":")
-        return {"k": "eval", "fname": n["fname"], "fid": id(funcs()[kind][tok]), "args": [wire(a, cfg) for a in n["args"]]}
+        fid = None if kind == "surr" else id(funcs()[kind][tok])
+        return {"k": "eval", "fname": n["fname"], "fid": fid, "args": [wire(a, cfg) for a in n["args"]]}
     raise ValueError(k)
 
 
 # ------------------------------------------------------------------------------------------ generator
 def _dy(rng):
+    if rng.random() < 0.2:  # floats whose repr is not a short decimal: 0.1, 1e-05, 1e+22, 1/3 ...
+        return rng.choice(["1/10", "1/100000", "10000000000000000000000", "1/3", "-7/1000", "123456789/1000", "0"])
     return frac(Fraction(rng.randint(-4096, 4096), rng.choice([1, 1, 2, 4, 8, 64, 1024])))
 
 
@@ -430,7 +483,10 @@ def _gen_steps(rng, allow_it=True):
     kind = "ts" if (r < 0.8 or not allow_it) else "it"
     if rng.random() < 0.4:
         steps.append(["key"])
-    steps.append([kind, rng.choice([1, 1, 2, 3])])
+    if rng.random() < 0.25:
+        steps.append(["fork", kind, rng.choice([1, 1, 2]), rng.choice([0, 1])])
+    else:
+        steps.append([kind, rng.choice([1, 1, 2, 3])])
     if rng.random() < 0.3:
         if rng.random() < 0.5:
             steps.append(["key"])
@@ -495,9 +551,18 @@ def gen_leaf(rng, allow_big=True):
         return _gen_sparse(rng)
     if r < 0.88:
         return _gen_proj(rng, big=allow_big and rng.random() < 0.12)
-    if r < 0.94:
+    if r < 0.92:
         return {"k": "plist", "ps": [_gen_proj(rng) for _ in range(rng.choice([0, 1, 2, 2, 3]))]}
-    return {"k": "div", "dim": rng.choice([1, 2, 3]), "sds": rng.sample(range(NSD), rng.randint(0, 3))}
+    if r < 0.95:
+        return _gen_merged(rng)
+    if r < 0.97:
+        return {"k": "div", "dim": rng.choice([1, 2, 3]), "sds": rng.sample(range(NSD), rng.randint(0, 3))}
+    return _gen_merged(rng)
+
+
+def _gen_merged(rng):
+    return {"k": "merged", "cls": rng.choice(MCLS), "mk": rng.choice(MKEYS), "pk": rng.choice(PKEYS), "inner": rng.choice([None, None, "flow", "x"]),
+            "doms": _gen_doms(rng)}
 
 
 def gen_tree(rng, depth):
@@ -526,6 +591,16 @@ def _gen_tree(rng, depth):
         if op == "pow" and a["k"] == "sparse":
             op = "mul"
         return {"k": "bin", "op": op, "a": a, "b": b}
+    if r < 0.66:
+        t = rng.choice(["sd", "sd", "intf"])
+        n = NSD if t == "sd" else NINTF
+        args = []
+        for _ in range(rng.choice([1, 1, 2])):
+            if rng.random() < 0.6:
+                args.append({"k": "var", "name": rng.choice(NAMES), "dom": [t, rng.randrange(n)], "steps": _gen_steps(rng)})
+            else:
+                args.append({"k": "mdvar", "name": rng.choice(NAMES), "doms": [[t, i] for i in rng.sample(range(n), rng.choice([1, 2]))], "steps": _gen_steps(rng)})
+        return {"k": "surr", "name": rng.choice(["rho", "mu", "p"]), "args": args}
     if r < 0.85:
         args = [_gen_tree(rng, depth - 1) for _ in range(rng.choice([1, 1, 2, 3]))]
         if rng.random() < 0.2:
@@ -541,7 +616,7 @@ def _nodes(E, path=()):
     if k == "bin":
         yield from _nodes(E["a"], path + ("a",))
         yield from _nodes(E["b"], path + ("b",))
-    elif k == "eval":
+    elif k in ("eval", "surr"):
         for i, a in enumerate(E["args"]):
             yield from _nodes(a, path + ("args", i))
     elif k == "shift":
@@ -728,6 +803,34 @@ def mutate_node(rng, E):
     if k == "shift":
         E2["steps"] += 1
         return E2, "shift.steps"
+    if k == "merged":
+        m = rng.choice(["cls", "mk", "pk", "inner", "dom", "dtype", "dtype"])
+        if m == "cls":
+            E2["cls"] = _other(rng, MCLS, E["cls"])
+        elif m == "mk":
+            E2["mk"] = _other(rng, MKEYS, E["mk"])
+        elif m == "pk":
+            E2["pk"] = _other(rng, PKEYS, E["pk"])
+        elif m == "inner":
+            E2["inner"] = _other(rng, [None, "flow", "x"], E.get("inner"))
+        elif m == "dom":
+            d = _gen_doms(rng, (E["doms"][0][0],) if E["doms"] else ("sd", "intf"))
+            if d == E["doms"]:
+                d = d[::-1] if len(d) > 1 else (d + [[d[0][0], (d[0][1] + 1) % NINTF]] if d else [["sd", 0]])
+            E2["doms"] = d
+        else:
+            if not E["doms"]:
+                return None
+            t = "intf" if E["doms"][0][0] == "sd" else "sd"
+            E2["doms"] = [[t, d[1]] for d in E["doms"] if d[1] < {"sd": NSD, "intf": NINTF}[t]]
+        return E2, "merged." + m
+    if k == "surr":
+        m = rng.choice(["name", "name", "arg"])
+        if m == "name":
+            E2["name"] = _other(rng, ["rho", "mu", "p"], E["name"])
+        else:
+            E2["args"] = E["args"] + [copy.deepcopy(E["args"][0])] if len(E["args"]) < 3 else E["args"][:-1]
+        return E2, "surr." + m
     return None
 
 
@@ -833,6 +936,12 @@ def compare(impl, model, case):
             return f"key string of tree {i}: real {a[:300]!r} vs model {b[:300]!r}"
     if impl["eq"] != model["eq"]:
         return f"pairs with equal keys: real {impl['eq']} vs model (token lists) {model['eq']}"
+    cfg = detect_cfg()
+    if cfg["idxHash"] and cfg["plistKeys"] and cfg["domSize"]:  # the legacy formats are outside the decoder
+        if not all(model["wf"]):
+            return f"model: tree / token list not well-formed (a name or digest with a delimiter character?): {model['wf']}"
+        if not all(model["lex"]):
+            return f"model: lex(render(key)) != key for tree(s) {[i for i, b in enumerate(model['lex']) if not b]}"
     return None
 
 
@@ -899,6 +1008,11 @@ def diff_class(a, b):
                 return _proj_class(x, y)
     if k == "div":
         return "collision:divergence"
+    if k == "merged":
+        for f in ("name", "doms", "mk", "pk", "inner"):
+            if a[f] != b[f]:
+                return "collision:merged-" + f
+        return "collision:merged-domain-type"
     return "collision:unclassified"
 
 
@@ -916,11 +1030,16 @@ def canon(n):
     if k == "eval":
         kind, tok = n["fn"].split(":")
         args = [canon(a) for a in n["args"]]
+        if kind == "surr":
+            return {"k": "surr", "name": n["fname"], "args": args}
         return {"k": "eval", "inst": tok, "args": args} if kind == "inst" else {"k": "eval", "fn": tok, "fname": n["fname"], "args": args}
+    if k == "merged":
+        return {"k": "merged", "cls": n["name"], "mk": n["mk"], "pk": n["pk"], "inner": n["inner"], "doms": [[key[n["dt"]], i] for i in n["doms"]]}
     return copy.deepcopy(n)
 
 
 _KNOWN = None
+HASH_STATS = {"pairs": 0, "str_hash_collisions": 0}
 
 
 def _known():
@@ -957,8 +1076,13 @@ def oracle(case):
             elif not same_tree and same_key:
                 key = "stale-key:scalar-set-value" if stale else diff_class(norms[i], norms[j])
                 fails.append({"what": f"trees {i},{j} differ ({key.split(':')[1]}) but share the key {keys[i][:200]!r}", "key": key})
-            elif same_key and hash(ops[i]) != hash(ops[j]):
-                fails.append({"what": f"trees {i},{j}: equal keys, different hashes", "key": "hash-differs"})
+            # __hash__ is hash(key): equal hashes <=> equal keys, except for 64-bit collisions of the string hash itself
+            HASH_STATS["pairs"] += 1
+            if (hash(ops[i]) == hash(ops[j])) != same_key:
+                if not same_key and hash(keys[i]) == hash(keys[j]):
+                    HASH_STATS["str_hash_collisions"] += 1  # a collision of python's str hash, not of the keys
+                else:
+                    fails.append({"what": f"trees {i},{j}: hash(op) equality ({hash(ops[i]) == hash(ops[j])}) disagrees with key equality ({same_key})", "key": "hash-vs-key"})
     if not fails:
         return None
     for f in fails:
@@ -1019,6 +1143,6 @@ def stats(cases, impl_outs):
             n = len(o["keys"])
             eqp += len(o["eq"])
             nep += n * (n - 1) // 2 - len(o["eq"])
-    return {"repairs_detected_in_checked_tree": detect_cfg(), "node_kinds": dict(sorted(kinds.items())), "mutation_kinds": dict(sorted(muts.items())),
+    return {"repairs_detected_in_checked_tree": detect_cfg(), "hash_vs_key_pairs_checked": dict(HASH_STATS), "node_kinds": dict(sorted(kinds.items())), "mutation_kinds": dict(sorted(muts.items())),
             "tree_depth_histogram": {str(k): v for k, v in sorted(depth.items())}, "pairs_equal_key": eqp, "pairs_different_key": nep,
             "projections_with_more_than_1000_indices": big}
